@@ -31,39 +31,8 @@ def gen_cases(rng, tier, ctx):
     return cs
 
 
-# ---- the Coq-checked conformance certificate (Spec/Recognise.v, sound by Proofs/Certify.v) ----
-# Every successful encoding without ECI is sent back to the extracted checker together with the input bytes: `certify`
-# accepts only if the stream is the rendering of a legal script of Spec/Stream16022.v spelling these bytes.
-CERT = {'last': None}
-
-
-def macro_body(cfg):
-    d = cfg['data']
-    if cfg['macros'] and not cfg['fnc1'] and len(d) >= 9 and d[-2:] == gen.TRAIL:
-        if d[:7] == gen.H05:
-            return 236, d[7:-2]
-        if d[:7] == gen.H06:
-            return 237, d[7:-2]
-    return None, d
-
-
-def model_line(c, io):
-    line = enccommon.model_line(c, io)
-    cfg = c['cfg']
-    if io and io.startswith('ok ') and cfg['eci'] is None and line != c['line']:
-        dcw = io.split(' ')[2]
-        m, body = macro_body(cfg)
-        prefix = 232 if cfg['fnc1'] else m
-        line += ' K%s;%s;%s' % ('N' if prefix is None else prefix, dcw, fmt_list(body))
-    return line
-
-
-def canon_model(mo, prof):
-    CERT['last'] = None
-    if ' cert=' in mo:
-        mo, cert = mo.rsplit(' cert=', 1)
-        CERT['last'] = cert
-    return mo
+model_line = enccommon.cert_model_line
+canon_model = enccommon.cert_canon_model
 
 
 def check_impl(c, out, ctx, prof):
@@ -81,14 +50,9 @@ def check_impl(c, out, ctx, prof):
         return '%d data codewords, %s has %d' % (len(dcw), common.VARIANTS[sym], sp['data'])
     if len(cw) != sp['data'] + sp['ec'] or cw[:len(dcw)] != dcw:
         return '%d codewords in total, %s has %d' % (len(cw), common.VARIANTS[sym], sp['data'] + sp['ec'])
-    cert = CERT['last']
-    CERT['last'] = None
-    if cfg['eci'] is None and cert is not None:
-        st = ctx.stats.setdefault('coq_certificate', {'certified': 0, 'rejected': 0})
-        st['certified' if cert == '1' else 'rejected'] += 1
-        if cert != '1':
-            return ('the Coq-checked certificate rejects the stream: it is not the rendering of a legal script of '
-                    'Spec/Stream16022.v for these bytes')
+    why = enccommon.cert_verdict(c, ctx)
+    if why:
+        return why
     r = refdec.decode(dcw)
     if r['error']:
         return 'reference decoder rejects the stream: %s' % r['error']
